@@ -96,6 +96,11 @@ class Block(Node):
                     # first component: `screen and (min-width: 1px)` keeps both
                     part_a = self.name.tokens[2:][0][0]
                     part_b = mb.name.tokens[2:][0]
+                    if mb.name.parsed:
+                        # as resolved where the inner block was evaluated:
+                        # its variables (a mixin parameter, a variable of
+                        # the enclosing rule) are out of scope here
+                        part_b = mb.name.parsed[0][2:]
                     cond = [
                         '@media', ' ', [[
                             part_a, (' ', 'and', ' '),
